@@ -83,6 +83,7 @@ type Scenario struct {
 	Profile     string             `json:"profile"`
 	TZ          string             `json:"tz,omitempty"`
 	HostIP      string             `json:"hostip"`
+	HostIP2     string             `json:"hostip2,omitempty"` // second address of a multi-homed client host
 	Bcast       []string           `json:"bcast,omitempty"`
 	Clients     []ClientCfg        `json:"clients"`
 	Endpoints   []Endpoint         `json:"endpoints,omitempty"`
